@@ -365,6 +365,13 @@ types! {
     "Date" => pdf::primitive::Date,
     "Rectangle" => Rectangle,
     "Matrix" => pdf::content::Matrix,
+    // containers on their own (object/mod.rs impls): arrays of optionals / of untyped primitives, nested
+    "Vec<Option<i32>>" => Vec<Option<i32>>,
+    "Vec<Primitive>" => Vec<Primitive>,
+    "Vec<Option<Dictionary>>" => Vec<Option<Dictionary>>,
+    "Vec<Option<Vec<Option<i32>>>>" => Vec<Option<Vec<Option<i32>>>>,
+    "Option<Vec<Primitive>>" => Option<Vec<Primitive>>,
+    "Vec<Option<Name>>" => Vec<Option<pdf::primitive::Name>>,
     "Action" => Action,
     "Dest" => Dest,
     "MaybeNamedDest" => MaybeNamedDest,
